@@ -1,6 +1,6 @@
-import asyncio, collections, heapq, sys, typing as t, contextvars
+import asyncio, collections, heapq, os, sys, typing as t, contextvars
 from asyncio import events, futures, tasks
-sys.path.insert(0,'/repo')
+sys.path.insert(0, os.environ.get('REPO', '/repo'))
 
 class VLoop(asyncio.AbstractEventLoop):
     def __init__(self):
